@@ -27,7 +27,7 @@ Record config := { cf_lat_place : Z; cf_lat_cancel : Z; cf_lat_update : Z; cf_la
                    cf_isolation : bool; cf_complete : list status; cf_mw_live : list status;
                    cf_min_adj : Z (* x100 *); cf_clients : list client (* per strategy *) }.
 
-Record sim := { s_markets : list market; s_queue : list pkg; s_bet : Z; s_removals : list (Z * option Z);
+Record sim := { s_markets : list market; s_queue : list pkg; s_bet : Z; s_removals : list (Z * (Z * option Z)) (* (market, (selection, factor)): once per market *);
                 s_next_name : Z; s_aborted : bool; s_tx : Z; s_tx_failed : Z }.
 
 Definition client_of (cf : config) (strat : Z) : client :=
@@ -197,8 +197,9 @@ Definition removal_order (tb : tiebreak) (mt : mtype) (b : book) (rsel : Z) (adj
     match so_type o, so_side o with
     | TMoc, Lay =>
         match adj with
-        | None => match mt with MWin | MPlace | MOtherPlace => None | _ => Some o end
+        | None => Some o                      (* no adjustment factor: nothing to reduce (repair of F-C09-2) *)
         | Some a =>
+          if a =? 0 then Some o else
           let scale (n d : Z) :=
             let n' := so_liab_n o * n in let d' := so_liab_d o * d in
             let m := if so_avg o =? 0 then so_matched o else rnd tb (n' * 10000) (d' * (so_avg o - 10000)) in
@@ -206,10 +207,8 @@ Definition removal_order (tb : tiebreak) (mt : mtype) (b : book) (rsel : Z) (adj
           match mt with
           | MWin =>
               match find_runner b (so_sel o) with
-              | Some r => match r_adj r with
-                          | Some ra => Some (scale (10000 - ra - a) (10000 - ra))
-                          | None => None
-                          end
+              | Some r => let ra := match r_adj r with Some x => x | None => 0 end in
+                          Some (scale (10000 - ra - a) (10000 - ra))
               | None => None
               end
           | MPlace | MOtherPlace => Some (scale (10000 - a) 10000)
@@ -337,14 +336,14 @@ Definition completion_sweep (cf : config) (now : Z) (orders : list sorder) : lis
 Definition middleware (tb : tiebreak) (cf : config) (s : sim) (m : market) (b : book) : sim * market :=
   (* analytics for ACTIVE runners; removals collected against the instance-wide list *)
   let '(ans, rems, newrems) :=
-    fold_left (fun (st : list analytics * list (Z * option Z) * list (Z * option Z)) (r : runner) =>
+    fold_left (fun (st : list analytics * list (Z * (Z * option Z)) * list (Z * option Z)) (r : runner) =>
                  let '(ans, rems, nr) := st in
                  match r_status r with
                  | RActive => (put_an (analytics_step r (get_an (r_sel r) ans)) ans, rems, nr)
                  | RRemoved =>
                      let key := (r_sel r, r_adj r) in
-                     if existsb (fun k => (fst k =? fst key) && opt_eqb Z.eqb (snd k) (snd key)) rems then st
-                     else (ans, rems ++ [key], nr ++ [key])
+                     if existsb (fun k => (fst k =? mk_id m) && (fst (snd k) =? fst key) && opt_eqb Z.eqb (snd (snd k)) (snd key)) rems then st
+                     else (ans, rems ++ [(mk_id m, key)], nr ++ [key])
                  | _ => st
                  end) (b_runners b) (mk_analytics m, s_removals s, []) in
   let '(orders1, raised) :=
